@@ -63,6 +63,9 @@ CHECKS = {
     "C24": ("xlsxrt", "model_checking", "TLA+ Xlsx.tla (Export then Import is a stuttering step; model-checked) and TraceXlsx.tla: recorded random histories with export+import events validated by TLC component by component",
             "Random catalogue histories (60 quick / 700 thorough, seeded) with a real xlsx export + import every 8 operations; 9 components of the statement compared as interned ids by TLC.",
             "I->S only: the specification has no opinion on file contents; sampled histories, not exhaustive.", "4 C24"),
+    "C16": ("structural", "model_checking", "TLA+ Structural.tla in clipboard mode (CutArea: references follow the moved cells; CopyArea: relative parts shifted, ranges re-normalised) with TLC; every behaviour replayed through copy_to_clipboard / paste_from_clipboard",
+            "8 areas x 5 paste targets (same sheet, other sheet, over content, overlapping) x cut / copy on the C12 workbook; cells, styles, links, every reference of every formula, the defined name and preserved values compared.",
+            "One paste per behaviour; partially overlapping references are left open as the statement does; English only.", "4 C16"),
     "C21": ("calendar", "model_checking", "TLA+ Calendar.tla: the day-by-day Gregorian chain with a closed form as invariant, every state (serial) printed by TLC and replayed on the date codecs, formats and functions",
             "All 2 958 465 serials are states of the spec; each is compared with from_excel_date / date_to_serial_number (all), and with yyyy-mm-dd formatting, typed ISO dates and DATE/YEAR/MONTH/DAY/WEEKDAY (windows in quick, all in thorough).",
             "Gregorian rules as written in Calendar.tla, certified against an independent closed form by TLC on every day.", "4 C21"),
@@ -139,7 +142,7 @@ def main():
             {"name": "history", "path": "spec/History.tla, spec/MC_History.tla, spec/TraceHistory.tla, bin/fam_history.py, harness/src/{world,histrec,ops,gen,project}.rs", "serves_properties": ["C01", "C02", "C03", "C04", "C26"], "kind_free_text": "TLC model checking + bidirectional conformance"},
             {"name": "selection", "path": "spec/Selection.tla, spec/MC_Selection.tla, spec/TraceSelection.tla, harness/src/behreplay.rs", "serves_properties": ["C28"], "kind_free_text": "TLC model checking + bidirectional conformance"},
             {"name": "cases", "path": "spec/{Calendar,Grid,Lang,F4,NumberInput,NumberFormat}.tla, bin/fam_cases.py, harness/src/cases.rs", "serves_properties": ["C06", "C08", "C09", "C11", "C25", "C29", "C30", "C19", "C20", "C21", "C22", "C23", "C34"], "kind_free_text": "TLC case enumeration with expected results, replayed on the implementation"},
-            {"name": "structural", "path": "spec/Structural.tla, bin/fam_cases.py (StructuralFam), harness/src/structural.rs", "serves_properties": ["C12", "C13", "C14", "C15", "C33"], "kind_free_text": "TLC behaviour enumeration with expected abstract state, replayed on the implementation"},
+            {"name": "structural", "path": "spec/Structural.tla, bin/fam_cases.py (StructuralFam), harness/src/structural.rs", "serves_properties": ["C12", "C13", "C14", "C15", "C16", "C33"], "kind_free_text": "TLC behaviour enumeration with expected abstract state, replayed on the implementation"},
             {"name": "xlsxrt", "path": "spec/Xlsx.tla, spec/TraceXlsx.tla, bin/fam_xlsx.py, harness/src/xlsxrt.rs", "serves_properties": ["C24"], "kind_free_text": "TLC trace validation of recorded export/import round trips"},
             {"name": "recalc", "path": "spec/Recalc.tla, bin/fam_cases.py (RecalcFam), harness/src/recalc.rs", "serves_properties": ["C05", "C07", "C31"], "kind_free_text": "TLC behaviour enumeration + simulation with expected values, replayed on the implementation"},
             {"name": "frames", "path": "spec/FrameLaws.tla, spec/Frames.tla, spec/TraceFrames.tla, bin/fam_xlsx.py, harness/src/frames.rs", "serves_properties": ["C10", "C17", "C32"], "kind_free_text": "TLC trace validation of per-operation frame laws"},
